@@ -62,21 +62,31 @@ def run_sharded(cmd_of, cases, workdir, tag, header, nsh=None):
     return out
 
 
-HEADER = "universe " + " ".join(g.UNIVERSE)
+HEADER = "universe " + " ".join(g.UNIVERSE) + "".join("\nsetup %s %s" % (n, ";".join(ops)) for n, ops in g.START)
 
 
 def split_case(case):
-    """-> (setup ops, ops)"""
+    """-> (tag, ops): tag is '' | '@<name>' | '@<n>;<the n set-up ops>'"""
     ops = [o for o in case.split(";") if o.strip()]
-    n = 0
+    tag = ""
     if ops and ops[0].startswith("@"):
-        n = int(ops[0][1:])
-        ops = ops[1:]
-    return ops[:n], ops[n:]
+        tag, ops = ops[0], ops[1:]
+        if tag[1:].isdigit():
+            n = int(tag[1:])
+            tag, ops = ";".join([tag] + ops[:n]), ops[n:]
+    return tag, ops
 
 
-def join_case(setup, ops):
-    return "@%d;" % len(setup) + ";".join(setup + ops)
+def join_case(tag, ops):
+    return ";".join(([tag] if tag else []) + ops)
+
+
+def setup_of(tag):
+    if not tag:
+        return []
+    if tag[1:] in g.SETUPS:
+        return list(g.SETUPS[tag[1:]])
+    return tag.split(";")[1:]
 
 
 # ------------------------------------------------------------------------------------------------ snapshots
@@ -273,7 +283,7 @@ def shrink(drv, mdl, ctx, case):
         changed = False
         for j in range(len(cur) - 1):
             cand = cur[:j] + cur[j + 1:]
-            if g.uses_released([o for o in setup if o.startswith("release")] + cand):
+            if g.uses_released([o for o in setup_of(setup) if o.startswith("release")] + cand):
                 continue
             k, _, _ = first_diff(drv, mdl, ctx, join_case(setup, cand), "shrink")
             if k is not None:
@@ -294,41 +304,49 @@ def stage1(ctx, drv, mdl):
     n_corpus = len(cands)
     exh = {}
     for name, setup in g.START:
-        a = list(g.exhaustive(setup, R, 2, F))             # 2 reduced ops, then every op form
+        a = list(g.exhaustive(name, R, 2, F))              # 2 reduced ops, then every op form
         exh["%s: R^2 x F" % name] = len(a)
         cands += a
-        n = 3 if quick else 4
-        if quick and name != "tree":
-            n = 2
-        if not quick and name == "empty":
-            n = 3
-        a = list(g.exhaustive(setup, R, n))
+        n = 3 if (not quick or name == "tree") else 2
+        a = list(g.exhaustive(name, R, n))
         exh["%s: R^%d" % (name, n)] = len(a)
         cands += a
+        if not quick and name != "orphans":
+            a = list(g.exhaustive(name, g.reduced_ops4(), 4))
+            exh["%s: R4^4" % name] = len(a)
+            cands += a
     n_exh = len(cands) - n_corpus
     nrand = 400 if quick else 6000
     for i in range(nrand):
         name, setup = g.START[i % len(g.START)]
-        cands.append(g.random_sequence(ctx.rng, setup, ctx.rng.choice([10, 25, 60, 60])))
+        cands.append(g.random_sequence(ctx.rng, name, ctx.rng.choice([10, 25, 60, 60])))
     ctx.log("stage 1: %d candidate sequences (%d exhaustive, %d random), |R|=%d |F|=%d" % (len(cands), n_exh, nrand, len(R), len(F)))
 
     # pass 1: the model says where a sequence leaves the claim (re-add to the current parent); cut there
     m1 = run_sharded(lambda p: [mdl, p, "seq"], cands, ctx.workdir, "p1", HEADER)
     final, seen = [], set()
     ncarve = 0
+    model_line, recut = {}, []
     for c, l in zip(cands, m1):
         t = l.split()
         if len(t) == 3 and t[1].startswith("carve=") and t[1] != "carve=-":
-            setup, ops = split_case(c)
-            c = join_case(setup, ops[:int(t[1][6:]) + 1])
+            tag, ops = split_case(c)
+            c = join_case(tag, ops[:int(t[1][6:]) + 1])
             ncarve += 1
-        if c not in seen:
+            if c not in seen:
+                seen.add(c)
+                final.append(c)
+                recut.append(c)
+        elif c not in seen:
             seen.add(c)
             final.append(c)
+            model_line[c] = l
     ctx.log("stage 1: %d sequences cut at the carve-out op, %d distinct sequences" % (ncarve, len(final)))
 
     impl = run_sharded(lambda p: [drv, "seq", p], final, ctx.workdir, "p2c", HEADER)
-    modl = run_sharded(lambda p: [mdl, p, "seq"], final, ctx.workdir, "p2m", HEADER)
+    for c, l in zip(recut, run_sharded(lambda p: [mdl, p, "seq"], recut, ctx.workdir, "p2m", HEADER) if recut else []):
+        model_line[c] = l
+    modl = [model_line[c] for c in final]
     bad = []
     nontrivial = 0
     hist = {"ops": 0, "succeeded": 0, "refused": 0, "carve_out_final_op": 0, "len": {}}
@@ -374,12 +392,17 @@ def stage1(ctx, drv, mdl):
                        "ops": ops, "impl_steps": xs, "model_steps": ys, "impl_digest_line": x, "model_digest_line": y})
 
     # "affects exactly the target": judged on the implementation's own snapshots, sequences without destruction
-    fr = [c for c in final if "release" not in c][: (3000 if quick else 40000)]
-    fr += [c for c in final[-nrand:] if "release" not in c]
+    def no_destruction(c):
+        return "release" not in c and not any(o.startswith("release") for o in setup_of(split_case(c)[0]))
+    fr = [c for c in final if no_destruction(c)][: (3000 if quick else 40000)]
+    fr += [c for c in final[-nrand:] if no_destruction(c)]
 
     def lead(c):     # report one op more, so that the state before the first op of the sequence is seen too
-        setup, ops = split_case(c)
-        return join_case(setup[:-1], [setup[-1]] + ops) if setup else join_case([], ["addcomponent 0 null"] + ops)
+        tag, ops = split_case(c)
+        setup = setup_of(tag)
+        if not setup:
+            return join_case("", ["addcomponent 0 null"] + ops)
+        return join_case(";".join(["@%d" % (len(setup) - 1)] + setup[:-1]), [setup[-1]] + ops)
     fr = [lead(c) for c in fr]
     full = run_sharded(lambda p: [drv, "full", p], fr, ctx.workdir, "p3", HEADER)
     nfr = 0
